@@ -10,7 +10,7 @@ def classify(r):
         return "init/config-id-not-fresh"
     holds = r["pre"]["config"] or r["pre"]["key"] or r["pre"]["snapshot"]
     what = "+".join(k for k in ("config", "key", "snapshot", "index", "pack") if r["pre"][k]) or "empty"
-    base = "init/%s/" % r["level"]
+    base = "init/%s/" % r["level"] + ("probe-fault-%s/" % r["fault"] if r["kind"] == "initfault" else "")
     if not r["unchanged"]:
         return base + "existing-files-modified/" + what
     if holds and r["ok"]:
@@ -58,8 +58,8 @@ def run(ctx):
             continue
         ctx.violate(key, "init (%s level, requested version %d, %s polynomial) on a location holding %s (%s files): ok=%s err=%r, existing files unchanged=%s, files added=%s, config=%s, keys opening with the password=%d" % (
             r["level"], r["version"], "given" if r["given"] else "random", [k for k, v in r["pre"].items() if v] or "nothing", r["flavour"],
-            r["ok"], r["errmsg"], r["unchanged"], {k: v for k, v in r["added"].items() if v}, r["cfg"], r["keys_pw"]),
-            {k: r[k] for k in ("level", "flavour", "pre", "version", "given")})
+            r["ok"], r["errmsg"], r["unchanged"], {k: v for k, v in r["added"].items() if v}, r.get("cfg"), r.get("keys_pw", 0)),
+            {k: r[k] for k in ("level", "flavour", "pre", "version", "given", "fault") if k in r})
     res = ctx.go_results[-1]
     cov = {"evaluations": n, "distinct_nontrivial": res["distinct_nontrivial"], "rule": res["rule"],
            "samples": verif.samples_from(lines[:-1], 3), "records_checked_by_tlc": n, "records_rejected": len(bad),
